@@ -1,14 +1,15 @@
 ------------------------- MODULE MC_C09_members -------------------------
 (* Universe "members" (DESIGN 4.6): table-level operations.  Tables 1 and 2 carry the same full
    name and equal columns (so a column of one is an equal twin of a column of the other), table 3
-   owns the "foreign" column; free columns and indexes (one over the foreign column, two equal
+   -- the same BARE name in another schema: its column is a near miss of theirs, equal in everything but the owner's
+   schema -- owns the "foreign" column; free columns and indexes (one over the foreign column, two equal
    ones, one with an expression subject) are added and deleted by object and by position. *)
 EXTENDS Container, Json, SequencesExt
 
 TableDefs == <<
   [id |-> 1, name |-> "n1", schema |-> "public", alias |-> "", sig |-> "A", cols |-> <<11, 12>>, idxs |-> <<>>],
   [id |-> 2, name |-> "n1", schema |-> "public", alias |-> "", sig |-> "A", cols |-> <<21>>, idxs |-> <<>>],
-  [id |-> 3, name |-> "n3", schema |-> "public", alias |-> "", sig |-> "B", cols |-> <<31>>, idxs |-> <<>>] >>
+  [id |-> 3, name |-> "n1", schema |-> "s2", alias |-> "", sig |-> "B", cols |-> <<31>>, idxs |-> <<>>] >>
 ColDefs == <<
   [id |-> 11, name |-> "id", type |-> "int"], [id |-> 12, name |-> "v", type |-> "text"],
   [id |-> 13, name |-> "v", type |-> "text"], [id |-> 21, name |-> "id", type |-> "int"],
